@@ -1077,7 +1077,76 @@ impl Sim {
         }
     }
 
+    /// State-directed choice: when the core holds a transient state that uniformly random actions rarely hit at the
+    /// right moment (a task being retracted from a worker, possibly redirected to another one; prefilled tasks),
+    /// aim the next action at it. Every choice ends in a `do_*` primitive, so the `act` lines replay it.
+    fn act_focus(&mut self) -> bool {
+        use tako::verif::server::SnapTaskState;
+        let snap = self.world.server.core_snapshot();
+        let reasons = [
+            LostWorkerReason::Stopped,
+            LostWorkerReason::ConnectionLost,
+            LostWorkerReason::HeartbeatLost,
+            LostWorkerReason::IdleTimeout,
+            LostWorkerReason::TimeLimitReached,
+        ];
+        let retr: Vec<(TaskId, u32)> =
+            snap.tasks.iter().filter_map(|t| if let SnapTaskState::Retracting(w) = t.state { Some((t.id, w)) } else { None }).collect();
+        if !retr.is_empty() {
+            let (t, src) = *self.rng.pick(&retr);
+            let target = snap.redirects.iter().find(|r| r.0 == t).map(|r| r.1);
+            let reason = *self.rng.pick(&reasons);
+            match self.rng.below(9) {
+                0 => self.do_lose_worker(src, reason),
+                1 | 2 => match target {
+                    Some(tg) => self.do_lose_worker(tg, reason),
+                    None => {
+                        self.do_deliver(src, true);
+                    }
+                },
+                3 | 4 => {
+                    if !self.do_deliver(src, true) {
+                        self.do_deliver(src, false);
+                    }
+                }
+                5 => {
+                    self.do_deliver(src, false);
+                }
+                6 => {
+                    let j = t.job_id().as_num();
+                    self.client_action(format!("cancel {j}"), FromClientMessage::Cancel(CancelRequest { selector: Self::selector(&[j]), reason: None }));
+                }
+                7 => {
+                    let kind = if self.rng.chance(1, 3) { EndKind::Error } else { EndKind::Finished };
+                    if !self.do_end_task(src, t, kind) {
+                        self.do_deliver(src, true);
+                    }
+                }
+                _ => self.act_schedule(),
+            }
+            return true;
+        }
+        let pre: Vec<(TaskId, u32)> =
+            snap.tasks.iter().filter_map(|t| if let SnapTaskState::Prefilled(w) = t.state { Some((t.id, w)) } else { None }).collect();
+        if !pre.is_empty() {
+            let (_, w) = *self.rng.pick(&pre);
+            match self.rng.below(4) {
+                0 if self.world.workers.len() < 4 => self.act_add_worker(),
+                1 => {
+                    let reason = *self.rng.pick(&reasons);
+                    self.do_lose_worker(w, reason)
+                }
+                _ => self.act_schedule(),
+            }
+            return true;
+        }
+        false
+    }
+
     pub fn step(&mut self) {
+        if self.rng.chance(1, 4) && self.act_focus() {
+            return;
+        }
         let nworkers = self.world.workers.len() as u64;
         let w = [
             if nworkers < if self.profile == 2 { 4 } else { 3 } { 6 } else { 0 }, // add worker
